@@ -22,7 +22,7 @@ theorem C18_refused_no_event (s : Srv) (k : Nat) (i : Option Nat) (r : Reason) (
 
 /-- **JOIN**: the events of an admitted join -/
 theorem C18_join_events (s : Srv) (k : Nat) (u : Str) (id : Nat) (raw : Str) (ob : Option Str) (env : Env) (h m : Str)
-    (hc : joinCheck s u id raw ob = .ok (h, m)) (hev : (s.cfg.fwdEvent && !env.evOk) = false) :
+    (hc : joinCheck s u id raw ob = .ok (h, m)) (hev : notifyFails s env = false) :
     doJoin s k u id raw ob env =
       (joinedState s h m,
         routeTo (joinedState s h m) (withMember s.cfg.domain (chanOrNew s h) m).members (some k)
@@ -43,7 +43,7 @@ theorem C18_join_targets (s : Srv) (h m : Str) :
 /-- **JOIN whose notification the modulator refuses**: no state change (rolled back), no event, the
     request fails as a whole -/
 theorem C18_join_notify_failed (s : Srv) (k : Nat) (u : Str) (id : Nat) (raw : Str) (ob : Option Str) (env : Env) (h m : Str)
-    (hc : joinCheck s u id raw ob = .ok (h, m)) (hev : (s.cfg.fwdEvent && !env.evOk) = true) :
+    (hc : joinCheck s u id raw ob = .ok (h, m)) (hev : notifyFails s env = true) :
     doJoin s k u id raw ob env = fail s k none .internalServerError env := by
   unfold doJoin
   rw [hc]
@@ -51,7 +51,7 @@ theorem C18_join_notify_failed (s : Srv) (k : Nat) (u : Str) (id : Nat) (raw : S
 
 /-- **LEAVE / kick**: the events of an admitted leave -/
 theorem C18_leave_events (s : Srv) (k : Nat) (u : Str) (id : Nat) (raw : Str) (ob : Option Str) (env : Env)
-    (c : Chan) (m : Str) (hc : leaveCheck s u id raw ob = .ok (c, m)) (hev : (s.cfg.fwdEvent && !env.evOk) = false) :
+    (c : Chan) (m : Str) (hc : leaveCheck s u id raw ob = .ok (c, m)) (hev : notifyFails s env = false) :
     (doLeave s k u id raw ob env).2 =
       routeTo s c.members (some k) (.event .left (fullChan s c.handler) (fullNid s m) (c.owner = some m))
         ++ [{ conn := k, frame := .leaveAck id }] ++ (removeMember s c m env).2.1 := by
@@ -72,7 +72,7 @@ theorem C18_leave_events (s : Srv) (k : Nat) (u : Str) (id : Nat) (raw : Str) (o
     member's connections get exactly the `MEMBER_JOINED owner=true` of the successor, who is a remaining member -/
 theorem C18_handover_events (s : Srv) (c : Chan) (u : Str) (env : Env)
     (hne : (withoutMember s.cfg.domain c u).members.isEmpty = false) (ho : c.owner = some u)
-    (hev : (s.cfg.fwdEvent && !env.evOk) = false) :
+    (hev : notifyFails s env = false) :
     (removeMember s c u env).2.1 =
       routeTo s (withoutMember s.cfg.domain c u).members none
         (.event .joined (fullChan s c.handler) (fullNid s (pickOwner env (withoutMember s.cfg.domain c u) u)) true) ∧
